@@ -485,6 +485,8 @@ class Hooks:
             self.log(ev)
             if f.get("exc") == "rt":
                 raise RuntimeError(f"vf injected failure at {a}({t},{j})")
+            if f.get("exc") == "kbd":      # an interruption that is not an Exception (Ctrl-C while a tensor is written)
+                raise KeyboardInterrupt(f"vf injected interruption at {a}({t},{j})")
             en = getattr(_errno, f.get("errno", "EIO"))
             raise OSError(en, os.strerror(en) + " [vf injected]")
         return self.log(ev)
